@@ -50,9 +50,37 @@ class Listener:
         self.snaps.append([w.value for w in self.wires])
 
 
+class _Randint:
+    """random.randint is environment: the library documents the result of a division by zero as arbitrary and draws it with
+    random.randint(lo, hi).  Symbolic runs: ANY integer of the closed interval [lo, hi] (a fresh symbol per call); replays: the
+    largest / smallest / a middle legal draw (each is a behaviour the real code can show)"""
+
+    def __init__(self, policy):
+        self.policy = policy
+        self.n = 0
+        import random
+        self.real = random.randint
+
+    def __call__(self, lo, hi):
+        self.n += 1
+        if self.policy == 'symbolic':
+            return core.fresh_range('randint%d' % self.n, lo, hi)[0]
+        return {'hi': hi, 'lo': lo, 'mid': (lo + hi) // 2}[self.policy]
+
+    def __enter__(self):
+        import random
+        random.randint = self
+        return self
+
+    def __exit__(self, *a):
+        import random
+        random.randint = self.real
+
+
 def range_task(p, cfg, rec):
     try:
-        return _range_task(p, cfg, rec)
+        with _Randint('symbolic'):
+            return _range_task(p, cfg, rec)
     finally:
         if cfg.get('cleanup'):
             cfg['cleanup']()
@@ -145,7 +173,13 @@ def _range_task(p, cfg, rec):
 
 def concrete_replay(cfg, values, label):
     try:
-        return _concrete_replay(cfg, values, label)
+        for policy in ('hi', 'lo', 'mid'):
+            with _Randint(policy):
+                r = _concrete_replay(cfg, values, label)
+            if r is not None:
+                r['random.randint draws'] = 'every draw = %s of its interval' % policy
+                return r
+        return None
     finally:
         if cfg.get('cleanup'):
             cfg['cleanup']()
